@@ -7,6 +7,58 @@ import (
 	"verif/engine/sym"
 )
 
+// nativeTypes are dynamic types of opaque values produced by stubs; method calls on them are
+// dispatched to nativeMethod.
+var nativeTypes = map[*types.Named]string{}
+
+func newNativeType(name string) *types.Named {
+	t := types.NewNamed(types.NewTypeName(0, nil, name, nil), types.NewStruct(nil, nil), nil)
+	nativeTypes[t] = name
+	return t
+}
+
+var (
+	joseSignerType  = newNativeType("verif.joseSigner")
+	joseBuilderType = newNativeType("verif.jwtBuilder")
+)
+
+// joseSigning is the state of a stubbed go-jose signer / JWT builder.
+type joseSigning struct {
+	alg, key Value
+	headers  *MapV
+	claims   []Value
+}
+
+func (m *Machine) nativeMethod(typeName, method string) Value {
+	return Native{func(m *Machine, args []Value) Value {
+		st := args[0].(Native).V.(*joseSigning)
+		const fin = "github.com/dadrus/heimdall/internal/rules/mechanisms/finalizers"
+		switch typeName + "." + method {
+		case "verif.jwtBuilder.Claims":
+			st.claims = append(st.claims, args[1])
+			return Iface{T: joseBuilderType, V: Native{st}}
+		case "verif.jwtBuilder.Serialize":
+			// publish what would be signed to the harness
+			set := func(name string, v Value) {
+				if g := m.lookupGlobal(fin, name); g != nil {
+					m.store(m.global(g), v)
+				}
+			}
+			if len(st.claims) > 0 {
+				if itf, ok := st.claims[len(st.claims)-1].(Iface); ok {
+					set("VerifSignedClaims", itf.V)
+				}
+			}
+			set("VerifSignedHeaders", st.headers)
+			set("VerifSignedAlg", st.alg)
+			set("VerifSignedKey", st.key)
+			return Tuple{m.mkStr("header.payload.signature"), Iface{}}
+		}
+		m.unsupported("%s.%s", typeName, method)
+		return nil
+	}}
+}
+
 // Third-party / environment functions replaced by nondeterministic or opaque stubs.
 func addStubIntrinsics(t map[string]intrinsic) {
 	// body encoders: opaque, non-empty bytes (their output format is outside every claim)
@@ -69,6 +121,30 @@ func addStubIntrinsics(t map[string]intrinsic) {
 			}
 		}
 		return Iface{}
+	}
+	// signing: the signer records algorithm, key and extra headers; the builder records the claims and
+	// Serialize hands everything to the harness instead of producing a signature
+	t["github.com/go-jose/go-jose/v4.NewSigner"] = func(m *Machine, fr *frame, a []Value) Value {
+		sk := a[0].(Struct) // SigningKey{Algorithm, Key}
+		st := &joseSigning{alg: sk[0], key: sk[1]}
+		if op, ok := a[1].(*Value); ok && op != nil {
+			so := (*op).(Struct)
+			ot := fr.fn.Signature.Params().At(1).Type()
+			if hm, ok := so[fieldIndex(ot, "ExtraHeaders")].(*MapV); ok {
+				st.headers = hm
+			}
+		}
+		return Tuple{Iface{T: joseSignerType, V: Native{st}}, Iface{}}
+	}
+	t["github.com/go-jose/go-jose/v4/jwt.Signed"] = func(m *Machine, fr *frame, a []Value) Value {
+		return Iface{T: joseBuilderType, V: a[0].(Iface).V}
+	}
+	t["github.com/google/uuid.New"] = func(m *Machine, fr *frame, a []Value) Value {
+		arr := make(Array, 16)
+		for i := range arr {
+			arr[i] = m.ctx.Const(uint64(0xA0+i), 8)
+		}
+		return arr
 	}
 	t["github.com/go-jose/go-jose/v4/jwt.ParseSigned"] = func(m *Machine, fr *frame, a []Value) Value {
 		if !m.branch(harnessGlobal(m, "VerifJWTParseOK").(*sym.Term)) {
